@@ -168,6 +168,10 @@ type LayoutCase struct {
 	EOL     string       `json:"eol"`     // "\n" "\r\n" "\r"
 	FinalNL bool         `json:"finalnl"` // final line break present
 	Tail    []string     `json:"tail,omitempty"`
+	// CLI: the re-laid-out source is also assembled by the gosk binary (which reads, decodes and normalises the
+	// file itself). Big > 0: one of its comments is that many bytes long.
+	CLI bool `json:"cli,omitempty"`
+	Big int  `json:"big,omitempty"`
 }
 
 func render(lines []LLine, c *LayoutCase) string {
@@ -211,6 +215,12 @@ func render(lines []LLine, c *LayoutCase) string {
 		}
 		sb.WriteString(lay.Trail)
 		sb.WriteString(lay.Comment)
+		if c.Big > 0 && i == len(lines)/2 {
+			if lay.Comment == "" {
+				sb.WriteString(" ;")
+			}
+			sb.WriteString(strings.Repeat(" long comment", c.Big/13+1))
+		}
 		last := i == len(lines)-1
 		if !last || c.FinalNL || l.Kind == "label" || len(c.Tail) > 0 {
 			sb.WriteString(c.EOL)
@@ -292,6 +302,20 @@ func checkC12(c LayoutCase) Verdict {
 			at++
 		}
 		return fail("bytes", "output changes with the layout: offset %d, canonical % x, re-laid-out % x (lengths %d / %d)", at, clip(r0.Out, at), clip(r1.Out, at), len(r0.Out), len(r1.Out))
+	}
+	if c.CLI && asm.GoskPath() != "" && !r0.Failed() {
+		b, ok := asm.FreshProcessBytes(re)
+		if !ok {
+			return fail("cli-acceptance|eol="+fmt.Sprintf("%q", c.EOL), "the library assembles the re-laid-out source, the gosk binary fails on it")
+		}
+		if !bytes.Equal(b, r0.Out) {
+			at := 0
+			for at < len(b) && at < len(r0.Out) && b[at] == r0.Out[at] {
+				at++
+			}
+			return fail("cli-bytes|eol="+fmt.Sprintf("%q", c.EOL), "output of the gosk binary changes with the layout: offset %d, canonical % x, re-laid-out % x (lengths %d / %d)", at, clip(r0.Out, at), clip(b, at), len(r0.Out), len(b))
+		}
+		st.Classes["through-binary"]++
 	}
 	// non-trivial: >= 3 edits of >= 2 kinds
 	edits, kinds := 0, map[string]bool{}
@@ -384,7 +408,7 @@ func genLayout(t *rapid.T, lines []LLine) []LineLayout {
 
 var propC12 = &Prop[LayoutCase]{
 	ID:   "C12",
-	Rule: "programs (generated from the C03 generator, or one of the book sources extracted from the repository's tests into /verif/corpus) tokenised into lines of tokens; re-layouts change only what lies between tokens: blanks/tabs in every gap (around commas, brackets, operators, after the mnemonic, around EQU), indentation, trailing blanks, ; and # comments after any line or on own lines (with quotes, commas, brackets, Japanese text), blank lines, LF / CRLF / CR line endings, final line break present or absent; oracle: same parse acceptance and byte-identical output as the canonical (minimal) layout; non-trivial = at least 3 layout edits of at least 2 kinds; distinct by re-laid-out text",
+	Rule: "programs (generated from the C03 generator, or one of the book sources extracted from the repository's tests into /verif/corpus) tokenised into lines of tokens; re-layouts change only what lies between tokens: blanks/tabs in every gap (around commas, brackets, operators, after the mnemonic, around EQU), indentation, trailing blanks, ; and # comments after any line or on own lines (with quotes, commas, brackets, Japanese text), blank lines, LF / CRLF / CR line endings, final line break present or absent; oracle: same parse acceptance and byte-identical output as the canonical (minimal) layout, for one case in forty also through the gosk binary (half of those with a comment of 5 or 70 KiB); non-trivial = at least 3 layout edits of at least 2 kinds; distinct by re-laid-out text",
 	Gen: func(t *rapid.T) LayoutCase {
 		loadCorpus()
 		var c LayoutCase
@@ -407,6 +431,11 @@ var propC12 = &Prop[LayoutCase]{
 		c.FinalNL = rapid.Bool().Draw(t, "finalnl")
 		if rapid.IntRange(0, 3).Draw(t, "tail") == 0 {
 			c.Tail = []string{rapid.SampledFrom(commentTexts).Draw(t, "tailc")}
+		}
+		// one case in forty goes through the binary as well (0.2 s per process), half of them with a very long comment
+		if rapid.IntRange(0, 39).Draw(t, "cli") == 17 {
+			c.CLI = true
+			c.Big = rapid.SampledFrom([]int{0, 0, 5000, 70000}).Draw(t, "bigcomment")
 		}
 		return c
 	},
